@@ -353,6 +353,10 @@ class Run:
         for p in params:
             if p["default"] is not None and self.rng.random() < 0.5:
                 continue
+            if p["default"] is not None and p["default"].get("nonopt") and self.rng.random() < 0.6:
+                out[p["name"]] = (None, None)  # explicit null where only the None default makes the argument nullable
+                self.env.count("explicit_null_for_none_default")
+                continue
             out[p["name"]] = ag.arg(p["t"])
         return out, ag.done
 
@@ -369,6 +373,17 @@ class Run:
             a = f.args.get(argname)
             if a is None:
                 return None
+            base = str(a.type).replace("!", "").replace("[", "").replace("]", "")
+            if base in ("ID", "Int", "String", "Boolean", "Float") and self.rng.random() < 0.5:
+                # built-in scalars (and lists of them): half of the time written as a literal in the document instead of
+                # going through a variable (the two enter a scalar type through parse_literal / parse_value)
+                try:
+                    lit = json.dumps(gql_value, ensure_ascii=False, allow_nan=False)
+                except (ValueError, TypeError):
+                    lit = None
+                if lit is not None and "{" not in lit:
+                    self.env.count("arguments_as_literals")
+                    return lit, argname
             v = f"v{len(vars_)}"
             vars_[v] = gql_value
             defs.append(f"${v}: {a.type}")     # the variable's type string is read from the built schema
@@ -563,7 +578,9 @@ class Run:
         sig = inspect.signature(fn)
         out = {}
         for p in spec["params"]:
-            if p["name"] in vals:
+            if p["name"] in vals and vals[p["name"]][1] is None and p["default"] is not None and p["default"].get("nonopt"):
+                out[p["name"]] = canon(None)  # null for `x: int = None`: the schema's nullability comes from the default, which it designates
+            elif p["name"] in vals:
                 try:
                     out[p["name"]] = canon(deserialize(hints[p["name"]], vals[p["name"]][1], aliaser=m.A_fn))
                 except ValidationError as e:
